@@ -6,7 +6,11 @@ ID = 'C11'
 TECHNIQUE = ('finite-domain folding of the escaping functions of StringEncoding.py / Code._split_characters on their ASTs (checker-side constant folder; '
              'only builtins and `re` of the checker\'s interpreter are called) and comparison of the resulting tables with a reference reader of C string and '
              'character literals (trigraphs, simple/octal/hex escapes, adjacent-literal concatenation) written from the C standard; '
-             'decision table of the cut position of split_string_literal over the complete domain of token-shape sequences lying across a chunk end (C11-CUT)')
+             'decision table of the cut position of split_string_literal over the complete domain of token-shape sequences lying across a chunk end (C11-CUT); '
+             'the tokenizer regular expression of the character-array form expanded into ordered alternatives of character predicates (CPython re._parser as the pattern reader, '
+             'matched by the checker) against the reference C lexer for every escaper token followed by every continuation class (C11-ARR); '
+             'def-use search from every quoted placeholder of the literal writers back to an escaper call, through locals, parameters (all callers), attributes (all stores), '
+             'loop / list elements and helper returns (C11-SINK)')
 DECIDES = ('C11-ESC: for each of the 256 byte values followed by any digit/hex letter, and for ~900 adversarial sequences (all pairs of representative bytes, '
            'trigraph leads ??x, runs of ? and of backslashes, quotes, digits after control bytes), the text produced by escape_byte_string consists of portable '
            'source characters and is read back as exactly the bytes (so: \\ " controls and >=128 are escaped, ?? never survives, numeric escapes cannot swallow what follows); '
@@ -18,12 +22,22 @@ DECIDES = ('C11-ESC: for each of the 256 byte values followed by any digit/hex l
            '(C11-SPLIT, the earlier sampled variant of this, stays unregistered); '
            "C11-TOK: Code._split_characters cuts escaped text into tokens that are each a valid C character constant of the right byte (so ' must be escaped by the escaper); "
            "C11-CHR: escape_char yields a valid character constant of the same value for all 256 bytes (' and \\ quoted); "
-           'C11-SRC: every text given to split_string_literal comes from escape_byte_string or is joined from constant separators that are complete, suffix-safe escapes.')
+           'C11-SRC: every text given to split_string_literal comes from escape_byte_string or is joined from constant separators that are complete, suffix-safe escapes; '
+           "C11-ARR (replaces the unregistered C11-TOK): Code._split_characters is `re.compile(<constant>).findall`; after expansion of counted repeats / groups / branches every "
+           'alternative is a fixed sequence of character predicates and findall takes the FIRST matching alternative at each position, so the tokenisation of an escaped text equals '
+           'the C tokenisation iff at the start of every escaper token T (tokens of the escapes of all 256 bytes and of all pairs of representative bytes, found with the reference C lexer), '
+           'followed by any continuation of up to m-1 characters over one representative per character class the pattern can distinguish, the first matching alternative has length |T|; '
+           "each token is a valid character constant 'T' of its byte; the text handed to _split_characters is escaper output that did not pass through split_string_literal; "
+           'C11-SINK: in every function that calls split_string_literal / _split_characters or belongs to the escaping family, and in calculate_result_code of every ConstNode subclass, a placeholder '
+           'that sits directly between two quote characters of an emitted template is derived from escape_byte_string (double quotes) or escape_char / escape_byte_string (single quotes) '
+           'on every def-use path (locals, parameters via all callers, object attributes via all stores, for-loop / append elements, returns of helpers defined in the same file).')
 NOT_DECIDED = ('that the cut table of split_string_literal computed at limits 6/7 is the table at the production limit 2000 (the function uses `limit` only additively and '
                'through `limit % 2`, both parities are tabulated and a look-back of bounded width plus a backslash run cannot distinguish more classes than occur at the small '
                'limits - but that transfer is an argument, not a check); homomorphism of escape_byte_string on arbitrary long inputs beyond the '
                'pair/triple contexts (the replacer is a regex alternation of fixed strings plus a per-byte loop); C compilers\' limits on literal length (MSVC 2K/64K rules); '
-               'that every emitter of a C string in the compiler goes through these functions.')
+               'that every emitter of a C string in the compiler goes through these functions (C11-SINK follows the writers named above and texts that are visibly escaped in place; a '
+               'function that writes user bytes between quotes without ever mentioning the escaping family is not found); the 64K threshold of the character-array form and the piece length 2000 '
+               '(limits of MSVC, mutants arr-threshold / split-limit-large).')
 ASSUMPTIONS = [
     'reference reader: C11 5.1.1.2 (trigraphs in phase 1, escapes in phase 5, adjacent literals in phase 6), 6.4.4.4 (octal escapes take at most 3 digits, hex escapes all following hex digits)',
     'portable raw characters in a literal are the printable ASCII characters 32..126',
@@ -80,6 +94,21 @@ PRESERVING = [
 ]
 
 
+# fourth round (mutation brainstorming, mutants/C11/*): 22 breaking edits over byte escaping, literal splitting, the character-array writer, the string-table writer and
+# character constants; 12 were reported before (C11-ESC/CUT/SRC/CHR), 20 now (C11-ARR and C11-SINK report the other 8); 2 declined (compiler limits).  11 behaviour-preserving
+# rewrites, all silent after `"<white space>"` separators were accepted by the reference reader and by C11-CUT (p-join-with-space used to end in ANALYSIS-ERROR).
+MUTATIONS += [
+    ('Cython/Compiler/Code.py', "_split_characters: alternative \\\\[0-7][0-7][0-7] dropped / shortened to two digits / `.` placed before `\\\\.`", 'C11-ARR _split_characters:<shape>:cut'),
+    ('Cython/Compiler/Code.py', '_write_cstring_const: _split_characters(strings) (the already split text)', 'C11-ARR Code._write_cstring_const:_split_characters-arg'),
+    ('Cython/Compiler/Code.py', '_write_escaped_cstring_const / StringConst.__init__: escape_byte_string dropped; generate_string_constants collects sc.text', 'C11-ARR ...-arg + C11-SINK Code._write_cstring_const:"strings"'),
+    ('Cython/Compiler/ExprNodes.py', 'CharNode.calculate_result_code: escape_char dropped', "C11-SINK ExprNodes.CharNode.calculate_result_code:'...'"),
+]
+PRESERVING += [
+    ('Cython/Compiler/Code.py', '_split_characters spelled (\\\\[0-7]{3}|\\\\.|.) or prefix-factored (\\\\(?:[0-7]{3}|.)|.); helper _escaped() wrapping the escaper; %-format instead of f-string in the writer', 'silent'),
+    ('Cython/Compiler/StringEncoding.py', 'pieces joined with `" "`; `len(s) > end` window test; dict-based _to_escape_sequence; escape_char octal', 'silent'),
+]
+
+
 def run(ctx):
     esc, longest = pC11.rule_escape_table(ctx)
     # C11-SPLIT and C11-TOK (pC11.rule_split / rule_char_tokens) interpret split_string_literal / _split_characters on generated
@@ -87,4 +116,4 @@ def run(ctx):
     # the registered check (see DESIGN.md section 9); the exhaustive per-byte tables and the source rule remain.
     # C11-CUT (sC11.rule_cut) replaces the sampled family of C11-SPLIT by the complete domain of the function's exact input
     # abstraction (sequences of the escaper's token shapes across one chunk end): a decision table, not a sample.
-    return [esc, pC11.rule_escape_char(ctx), pC11.rule_raw_literals(ctx), sC11.rule_cut(ctx)]
+    return [esc, pC11.rule_escape_char(ctx), pC11.rule_raw_literals(ctx), sC11.rule_cut(ctx), sC11.rule_char_array(ctx), sC11.rule_sinks(ctx)]
